@@ -27,6 +27,87 @@ class NoFunctionRegisteredException(Exception):
     pass
 
 
+class AmbiguousMethodException(Exception):
+    pass
+
+
+class CollectionTooLargeException(Exception):
+    pass
+
+
+class NoMethodRegisteredException(Exception):
+    pass
+
+
+class WrappedException(Exception):
+    """what a host meets when a StopIteration is raised inside a function call while IT consumes a lazy result
+    (yaql.convertOutputData off): yaql wraps it so that it does not end the generators on the way, and only
+    evaluate() unwraps it"""
+
+
+class Opts:
+    """the options of the engine a statement belongs to, as far as the collection functions and the finaliser look at
+    them (Opts of lean/Yaql/Model/SeqRun.lean): yaql.iterableDicts, convertTuplesToLists, convertSetsToLists,
+    convertInputData, limitIterators (None = never reached)"""
+    __slots__ = ('id', 'tl', 'sl', 'ci', 'lim', 'co', 'af', 'ns')
+
+    def __init__(self, id=False, tl=True, sl=True, ci=True, lim=None, co=True, af=True, ns=False):
+        self.id, self.tl, self.sl, self.ci, self.lim, self.co = id, tl, sl, ci, lim, co
+        # the flags of yaql.create_context() the functions depend on: group_by_agg_fallback, no_sets
+        self.af, self.ns = af, ns
+
+    def json(self):
+        return {'id': self.id, 'tl': self.tl, 'sl': self.sl, 'ci': self.ci, 'lim': self.lim, 'co': self.co, 'af': self.af,
+                'ns': self.ns}
+
+    @staticmethod
+    def of_json(j):
+        return Opts(j['id'], j['tl'], j['sl'], j['ci'], j['lim'], j.get('co', True), j.get('af', True), j.get('ns', False))
+
+    def key(self):
+        return (self.id, self.tl, self.sl, self.ci, self.lim, self.co, self.af, self.ns)
+
+    def __repr__(self):
+        return ('Opts(iterableDicts=%s, tuplesToLists=%s, setsToLists=%s, convertInput=%s, limit=%s, convertOutput=%s; context: '
+                'group_by_agg_fallback=%s, no_sets=%s)' % self.key())
+
+
+CUR = Opts()         # the options of the evaluation in progress (set by run_ref / run_obs)
+
+
+class FSet(list):
+    """a finalised set (the members in some order)"""
+
+
+class FDict(list):
+    """a dictionary handed out raw, as the list of its (key, value) pairs (nothing is hashed by the harness)"""
+
+
+class FIter(list):
+    """what the host gets out of a lazy result when it consumes it (yaql.convertOutputData off)"""
+
+
+def limit_sized(xs):
+    """limit_iterable over a sized collection: checked when the argument is converted"""
+    if CUR.lim is not None and len(xs) > CUR.lim:
+        raise CollectionTooLargeException()
+    return xs
+
+
+def limit_lazy(src):
+    """limit_iterable over an iterator: the element after the limit-th raises (if there is one)"""
+    lim = CUR.lim
+    if lim is None:
+        return src
+
+    def gen():
+        for i, t in enumerate(src):
+            if i >= lim:
+                raise CollectionTooLargeException()
+            yield t
+    return gen()
+
+
 class Stop(Exception):
     """the StopIteration with which first() / last() / single() / dict() fail.  Inside a lambda it has to reach
     the caller of the whole query like any other exception: a real StopIteration raised by a selector would be
@@ -112,7 +193,7 @@ def has_lazy(v):
     if isinstance(v, (tuple, list)):
         return any(has_lazy(x) for x in v)
     if isinstance(v, dict):
-        return any(has_lazy(x) for x in v.values())
+        return any(has_lazy(x) for x in v.values()) or any(has_lazy(k) for k in v)      # (a generator is a legal key)
     return False
 
 
@@ -136,14 +217,14 @@ def o_plus(a, b):
     if isinstance(a, str) and isinstance(b, str):
         return a + b
     if isinstance(a, tuple) and isinstance(b, tuple):
-        return a + b
+        return limit_sized(a) + limit_sized(b)
     if isinstance(a, frozenset) and isinstance(b, frozenset):
-        return DSet(a | b)
+        return DSet(limit_sized(a) | limit_sized(b))
     if isinstance(a, dict) and isinstance(b, dict):
         d = dict(a)
         d.update(b)
         return FD(d)
-    if is_iterable(a) and is_iterable(b):
+    if is_iterable_arg(a) and is_iterable_arg(b):
         raise OOD()
     raise NoMatchingFunctionException('+')
 
@@ -227,6 +308,8 @@ def o_str(a):
 
 
 def o_len(a):
+    if isinstance(a, frozenset) and CUR.ns:
+        raise NoMatchingMethodException('len')      # (the `len` of sets is one of the set functions: create_context(no_sets=True))
     if isinstance(a, (str, tuple, list, frozenset, dict)):
         return len(a)
     if is_iterator(a):
@@ -243,12 +326,17 @@ def o_range(a):
 def seq_of(v):
     """the element of a collection as the receiver of first() / where() / ...: an iterable that is not a
     string or a dict"""
-    if isinstance(v, (tuple, list)) or is_iterator(v):
-        return iter(v)
+    if isinstance(v, (tuple, list)):
+        return iter(limit_sized(v))
+    if is_iterator(v):
+        return limit_lazy(iter(v))
     if isinstance(v, frozenset):
+        limit_sized(v)
         if len(v) > 1:
             raise OOD()       # iteration order of a nested set
         return iter(v)
+    if isinstance(v, dict) and CUR.id:
+        return iter(limit_sized(list(v)))
     raise NoMatchingMethodException()
 
 
@@ -408,22 +496,33 @@ def bad_receiver(o):
 
 
 def it(o, ordered=True):
-    """iterate a receiver declared Iterable(): lazily, once"""
+    """iterate a receiver declared Iterable(): lazily, once; under yaql.limitIterators a sized collection is checked at
+    once, an iterator when the element after the last allowed one is pulled"""
     if isinstance(o, Memo):
-        return iter(o)            # a fresh cursor
+        return limit_lazy(iter(o))            # a fresh cursor
     if isinstance(o, DSet):
+        limit_sized(o)
         if ordered and len(o) > 1:
             raise OOD()
         return iter(o)
     if isinstance(o, (tuple, list, frozenset)):
-        return iter(o)
+        return iter(limit_sized(o))
     if isinstance(o, View):
-        return iter(o.elems())
+        if o.kind == 'values':
+            return limit_lazy(iter(o.elems()))
+        return iter(limit_sized(o.elems()))
     if isinstance(o, Ordering):
-        return sort_lazily(o)
+        return limit_lazy(sort_lazily(o))
     if is_iterator(o):
-        return o
+        return limit_lazy(o)
+    if isinstance(o, dict) and CUR.id:
+        return iter(limit_sized(list(o)))     # yaql.iterableDicts: a dictionary is the collection of its keys
     bad_receiver(o)
+
+
+def is_iterable_arg(x):
+    """accepted by a parameter declared Iterable()"""
+    return is_iterable(x) or isinstance(x, dict) and CUR.id
 
 
 def sort_lazily(o):
@@ -525,13 +624,13 @@ class Ref:
         if isinstance(o, str):
             raise OOD()
         if isinstance(o, Memo):
-            return sum(1 for _ in o)
+            return sum(1 for _ in limit_lazy(iter(o)))
         if isinstance(o, (tuple, list, frozenset, dict)):
             return len(o)
         if isinstance(o, View) and o.kind != 'values':
             return len(o.d)
         if is_iterator(o):
-            return sum(1 for _ in o)
+            return sum(1 for _ in limit_lazy(o))         # (the overload for iterators: declared Iterator())
         raise NoMatchingMethodException()
 
     def count(self, o, a):
@@ -541,7 +640,11 @@ class Ref:
         if isinstance(o, str):
             raise OOD()
         if isinstance(o, (tuple, list, frozenset)) or isinstance(o, View) and o.kind != 'values':
+            limit_sized(o if not isinstance(o, View) else o.d)
             return o
+        if isinstance(o, dict) and CUR.id:
+            limit_sized(o)
+            return o                   # (a sized collection is handed back as it is - also a dictionary)
         return Memo(it(o))
 
     def _reduce(self, o, f, init):
@@ -605,7 +708,7 @@ class Ref:
     def sequenceTake(self, o, a):
         start = 0 if a.get('m') is None else a['m']
         step = 1 if a.get('k') is None else a['k']
-        return itertools.islice(itertools.count(start, step), a['n'])
+        return itertools.islice(limit_lazy(itertools.count(start, step)), a['n'])      # (take's receiver passes the limiter)
 
     def orderBy(self, o, a):
         return Ordering(it(o), [(lam(a['l']), True)])
@@ -639,7 +742,7 @@ class Ref:
         # return a pair, as long as no earlier group contradicted the legacy reading.
         def gen():
             failure = None
-            fallback = True
+            fallback = CUR.af          # (create_context(group_by_agg_fallback=..))
             for k, vs in groups.items():
                 if failure is None:
                     try:
@@ -686,12 +789,12 @@ class Ref:
         if times is None or times < 0:
             if n is None:
                 raise OOD()
-            return itertools.islice(itertools.repeat(o), n)
+            return itertools.islice(limit_lazy(itertools.repeat(o)), n)
         r = itertools.repeat(o, times)
-        return r if n is None else itertools.islice(r, n)
+        return r if n is None else itertools.islice(limit_lazy(r), n)
 
     def cycleTake(self, o, a):
-        return itertools.islice(itertools.cycle(it(o)), a['n'])
+        return itertools.islice(limit_lazy(itertools.cycle(it(o))), a['n'])
 
     def takeWhile(self, o, a):
         return itertools.takewhile(lam(a['l']), it(o))
@@ -804,6 +907,8 @@ class Ref:
                 if t not in seen:
                     seen.add(t)
                     out.append(t)
+                    if CUR.lim is not None and len(out) > CUR.lim:
+                        raise CollectionTooLargeException()     # (made through toList: the limiter of its parameter)
             return tuple(out)
 
         def merge(d1, d2, lvl):
@@ -834,7 +939,8 @@ class Ref:
 
     def defaultIfEmpty(self, o, a):
         src = it(o, ordered=False)
-        if isinstance(o, (tuple, list, frozenset)) or isinstance(o, View) and o.kind != 'values':
+        if isinstance(o, (tuple, list, frozenset)) or isinstance(o, View) and o.kind != 'values' \
+                or isinstance(o, dict) and CUR.id:
             return a['vs'] if len(o if not isinstance(o, View) else o.d) == 0 else o
         if isinstance(o, Memo):
             src = iter(o)
@@ -889,23 +995,26 @@ class Ref:
                     raise OOD()
                 if not is_iterable(kids):
                     raise TypeError('not iterable')
-                kids = list(kids)
+                # (what the producer returns passes the limiter)
+                kids = list(limit_lazy(kids) if is_iterator(kids) else limit_sized(kids))
                 queue = kids + queue if depth_first else queue + kids
-        return itertools.islice(gen(), a['n'])
+        return itertools.islice(limit_lazy(gen()), a['n'])
 
     # ---- collections.py
     def list(self, o, a):
         if isinstance(o, (Ordering, View)):
             raise OOD()
         if is_iterator(o):
-            return tuple(o)
+            return tuple(limit_lazy(iter(o) if isinstance(o, Memo) else o))     # (iterators among the arguments are spliced in, through the limiter)
         return (o,)
 
     def flatten(self, o, a):
         def rec(xs):
             for x in xs:
+                if isinstance(x, DSet) and len(x) > 1:
+                    raise OOD()         # (iteration order of a set built during evaluation)
                 if isinstance(x, (tuple, list, frozenset)):
-                    yield from rec(x)
+                    yield from rec(limit_sized(x))      # (every nested collection passes the limiter when it is reached)
                 else:
                     yield x
         return rec(it(o))
@@ -921,7 +1030,7 @@ class Ref:
     def dict(self, o, a):
         if isinstance(o, str):
             raise OOD()
-        if not is_iterable(o):
+        if not is_iterable_arg(o):
             raise NoMatchingFunctionException('dict')
         d = {}
         for t in it(o):
@@ -991,16 +1100,21 @@ class Ref:
 
     def _member(self, o, v):
         if isinstance(o, frozenset):
+            limit_sized(o)
+            return v in o
+        if isinstance(o, dict) and CUR.id:
+            limit_sized(o)
             return v in o
         if isinstance(o, View):
             if o.kind == 'keys':
+                limit_sized(o.d)
                 return v in o.d
             if o.kind == 'items':
                 raise OOD()
         return any(x == v for x in it(o))
 
     def contains(self, o, a):
-        if not is_iterable(o):
+        if not is_iterable_arg(o):
             bad_receiver(o)
         return self._member(o, a['v'])
 
@@ -1027,13 +1141,15 @@ class Ref:
             if isinstance(x, str) and isinstance(y, str):
                 return x + y
             raise OOD()
-        if isinstance(x, tuple) and isinstance(y, tuple) or is_num(x) and is_num(y):
+        if is_num(x) and is_num(y):
             return x + y
+        if isinstance(x, tuple) and isinstance(y, tuple):
+            return limit_sized(x) + limit_sized(y)      # (the overload for two iterables: both pass the limiter)
         if isinstance(x, frozenset) and isinstance(y, frozenset):
-            return DSet(x | y)
+            return DSet(limit_sized(x) | limit_sized(y))
         if isinstance(x, dict) and isinstance(y, dict):
             return FD(itertools.chain(x.items(), y.items()))
-        if is_iterable(x) and is_iterable(y):
+        if is_iterable_arg(x) and is_iterable_arg(y):
             for z in (x, y):        # a set literal is a set built during evaluation
                 if isinstance(z, frozenset) and not isinstance(z, DSet) and z is not self._recv and len(z) > 1:
                     raise OOD()
@@ -1059,6 +1175,8 @@ class Ref:
     def delete(self, o, a):
         args = a['vs']
         if isinstance(o, dict):
+            if CUR.id and len(args) in (1, 2) and all(isinstance(t, int) for t in args):
+                raise AmbiguousMethodException()     # delete(position[, count]) of a collection fits as well
             for k in args:
                 hash(k)
             return {k: v for k, v in o.items() if not any(k == t for t in args)}
@@ -1072,7 +1190,9 @@ class Ref:
     def deleteAll(self, o, a):
         if not isinstance(o, dict):
             bad_receiver(o)
-        return self.delete(o, a)
+        for k in a['vs']:
+            hash(k)
+        return {k: v for k, v in o.items() if not any(k == t for t in a['vs'])}
 
     def _replace(self, o, pos, vals, count):
         hi = pos + count if count >= 0 else float('inf')
@@ -1133,7 +1253,7 @@ class Ref:
         if isinstance(o, (Ordering, View)):
             raise OOD()
         if is_iterator(o):
-            return DSet(o)
+            return DSet(limit_lazy(iter(o) if isinstance(o, Memo) else o))
         return DSet([o])
 
     def toSet(self, o, a):
@@ -1200,6 +1320,8 @@ class Ref:
     root = None
 
     def _root(self):
+        if CUR.lim is not None:
+            raise OOD()           # (a second consumer of `$` under yaql.limitIterators: not followed)
         r = self.root
         if isinstance(r, Memo) or isinstance(r, (tuple, list)) or isinstance(r, frozenset) and not isinstance(r, DSet):
             return r
@@ -1230,7 +1352,7 @@ class Ref:
             def f(o, a):
                 if isinstance(o, str):
                     raise OOD()
-                if not is_iterable(o):
+                if not is_iterable_arg(o):
                     raise NoMatchingFunctionException('in')
                 return self._member(o, a['v'])
             return f
@@ -1271,43 +1393,241 @@ def no_lazies(o):
     return o
 
 
-def run_lazy(data, ops, binder=None):
-    """as run_ref, but the result is handed out as it is (a lazy iterator stays unconsumed)"""
+def coll_args(op):
+    """the collections among the arguments (parameters declared Iterable())"""
+    name = op['op']
+    if name in ('concat', 'zip', 'zipLongest'):
+        return list(op['vss'])
+    if name in ('join', 'defaultIfEmpty', 'deleteAll', 'insertMany', 'replaceMany'):
+        return [op['vs']]
+    return []
+
+
+def data_root():
+    return REF.root
+
+
+def apply_op(o, op):
+    """one stage applied to a run-time object.  The arguments are converted - collections pass the limiter - once an
+    overload has accepted the receiver, before the function runs."""
+    name = op['op']
+    if CUR.ns:
+        # a context made with create_context(no_sets=True) has no set functions: `set(..)` / `isSet(..)` are unknown
+        # functions (so is a set literal among the arguments of - < +), toSet / union / ... unknown methods, and `len`
+        # has no overload for a set
+        if name in ('set', 'isSet', 'minus', 'setCmp') or name in ('plusRight', 'plusLeft') and isinstance(op['v'], frozenset):
+            raise NoFunctionRegisteredException(name)
+        if name in ('toSet', 'union', 'intersect', 'difference', 'symmetricDifference', 'add', 'remove'):
+            raise NoMethodRegisteredException(name)
+        if name == 'len' and (isinstance(o, frozenset) or isinstance(o, View) and o.kind != 'values'):
+            raise NoMatchingMethodException(name)
+        if name in ('partialThenFull', 'zipRoot', 'joinRoot', 'concatRoot') and isinstance(data_root(), frozenset):
+            raise OOD()
+    if name not in LINEAR:
+        o = no_lazies(o)
+    over = CUR.lim is not None and any(len(xs) > CUR.lim for xs in coll_args(op))
+    try:
+        r = getattr(REF, 'in_' if name == 'in' else name)(o, op)
+    except (OOD, NoMatchingMethodException, NoMatchingFunctionException, NoFunctionRegisteredException,
+            NoMethodRegisteredException, AmbiguousMethodException):
+        raise
+    except Exception:
+        if over:
+            raise CollectionTooLargeException()
+        raise
+    if over:
+        raise CollectionTooLargeException()
+    return r
+
+
+def convert_input(v):
+    """utils.convert_input_data as documented: sequences become (immutable) tuples, mappings frozen dictionaries, sets
+    frozen sets, the members of an iterator are converted as they are pulled"""
+    if isinstance(v, (tuple, list)):
+        return tuple(convert_input(x) for x in v)
+    if isinstance(v, dict):
+        return FD((convert_input(k), convert_input(x)) for k, x in v.items())
+    if isinstance(v, (set, frozenset)):
+        return frozenset(convert_input(x) for x in v)
+    if is_iterator(v):
+        return map(convert_input, v)
+    return v
+
+
+def run_lazy(data, ops, binder=None, opts=None):
+    """as run_ref, but the result is handed out as it is (a lazy iterator stays unconsumed).  `data` is the document in
+    the form `$` is bound to (see bind_input)"""
+    global CUR
+    CUR = opts or Opts()
     o = data
     if binder is not None:
-        o = getattr(REF, binder['op'])(o, binder)
+        o = apply_op(o, binder)         # (the binder of `let(..) -> ..` is evaluated before the body)
+    if CUR.ns and any(op['op'] in ('set', 'isSet') or op['op'] == 'plusLeft' and isinstance(op['v'], frozenset) for op in ops):
+        # written in function style: the (unknown) function is looked up before its argument - the stages in front of it -
+        # is evaluated
+        raise NoFunctionRegisteredException('set')
     REF.root = o
     for op in ops:
-        name = op['op']
-        if name not in LINEAR:
-            o = no_lazies(o)
-        o = getattr(REF, 'in_' if name == 'in' else name)(o, op)
+        o = apply_op(o, op)
     return o
 
 
-def run_ref(data, ops, binder=None):
-    """data: runtime value (tuple / FD / frozenset / iterator); returns the finalised result.
+def run_ref(data, ops, binder=None, opts=None):
+    """data: runtime value (tuple / FD / frozenset / iterator; lists / plain dicts / sets when the engine does not
+    convert its input); returns the finalised result.
     binder: the op of `let(binder($)) -> ...` that rebinds `$` (memorize / defaultIfEmpty)"""
-    return finalise(run_lazy(data, ops, binder))
+    return finalise(run_lazy(data, ops, binder, opts))
+
+
+# ---- programs that look at the operand of a persistent update again (Obs of Model/SeqRun.lean)
+
+def rereadable(o):
+    """can a variable bound to it be read several times?  (a one-shot iterator cannot, and a generator inside a
+    collection is consumed by whoever reads it first)"""
+    if isinstance(o, Memo):
+        return True
+    if is_iterator(o) or isinstance(o, Ordering):
+        return False
+    if isinstance(o, View):
+        return not has_lazy(o.d)
+    if isinstance(o, frozenset):
+        return not any(has_lazy(x) for x in o)
+    return not has_lazy(o)
+
+
+def upd_elem(u, x):
+    if has_lazy(x):
+        raise OOD()
+    return apply_op(x, u)
+
+
+def run_obs(data, ops, binder, obs, opts=None):
+    """the finalised result of an observing program around the pipeline's result `x`:
+      letPair   [x.u, x]          letTwice  [x.u, x.u2, x]          letChain  y = x.u; [y.u2, y, x]
+      selPair   x.select([$.u, $])          memPair   m = x.memorize(); [m.select($.u).toList(), m.toList()]
+    An update is a function of its operand: the operand is the same afterwards."""
+    o = run_lazy(data, ops, binder, opts)
+    shape, u, u2 = obs['shape'], obs['u'], obs.get('u2')
+    if shape == 'selPair':
+        return finalise(map(lambda x: (upd_elem(u, x), x), it(o)))
+    if shape == 'memPair':
+        m = apply_op(o, {'op': 'memorize'})
+        first = tuple(map(lambda x: upd_elem(u, x), it(m)))
+        return finalise_parts([first, tuple(it(m))])
+    if not rereadable(o):
+        raise OOD()
+    if shape == 'letPair':
+        return finalise_parts([apply_op(o, u), o])
+    if shape == 'letTwice':
+        a = apply_op(o, u)
+        b = apply_op(o, u2)
+        return finalise_parts([a, b, o])
+    if shape == 'letChain':
+        y = apply_op(o, u)
+        if not rereadable(y):
+            raise OOD()
+        return finalise_parts([apply_op(y, u2), y, o])
+    raise ValueError(shape)
+
+
+def finalise_parts(parts):
+    """a list literal of run-time objects (a tuple), finalised"""
+    if not CUR.co:
+        return tuple(raw_out(p) for p in parts)
+    limit_sized(parts)
+    r = [finalise(p) for p in parts]
+    return r if CUR.tl else tuple(r)
+
+
+def raw_out(o, key=False):
+    try:
+        return _raw_out(o, key)
+    except Stop:
+        raise WrappedException()
+
+
+def _raw_out(o, key=False):
+    """yaql.convertOutputData off: evaluate() hands the run-time object out as it is - a tuple, a list, a frozen set (FSet;
+    so are the keys / items views), a dictionary, or something lazy, which the host consumes (FIter: what it gets; an
+    exception raised while it does is the outcome).  No limiter is put around the result."""
+    if isinstance(o, dict):
+        return FDict((_raw_out(k), _raw_out(v)) for k, v in o.items())
+    if isinstance(o, frozenset):
+        return FSet(_raw_out(x) for x in o)
+    if isinstance(o, View):
+        if o.kind == 'values':
+            return FIter(_raw_out(x) for x in o.elems())
+        return FSet(_raw_out(x) for x in o.elems())
+    if isinstance(o, tuple):
+        return tuple(_raw_out(x, key) for x in o)
+    if isinstance(o, list):
+        return [_raw_out(x) for x in o]
+    if isinstance(o, Memo):
+        return FIter(_raw_out(x) for x in iter(o))
+    if isinstance(o, Ordering):
+        return FIter(_raw_out(x) for x in sort_lazily(o))
+    if is_iterator(o):
+        return FIter(_raw_out(x) for x in o)
+    return o
+
+
+def out_hashable(f):
+    if isinstance(f, (list, dict)):        # (FSet is a list)
+        return False
+    if isinstance(f, tuple):
+        return all(out_hashable(x) for x in f)
+    return True
 
 
 def finalise(o):
-    """as evaluate() hands results out (sets stay sets here; dict keys must stay hashable)"""
+    """as evaluate() hands results out under the engine's options: tuples become lists unless convertTuplesToLists is off
+    (a mutable list is a list anyway), sets become lists with convertSetsToLists and sets otherwise (FSet marks one:
+    its members must be hashable then), iterators become lists, a dict's value is converted before its key and the
+    converted key must be hashable; every level passes the limiter first"""
+    if not CUR.co:
+        return raw_out(o)
     if isinstance(o, dict):
+        limit_sized(o)
         r = {}
         for k, v in o.items():
             fv = finalise(v)
             fk = finalise(k)            # (the key is converted as well - after the value: a generator among the keys is consumed)
-            if isinstance(fk, (tuple, list, dict)):
+            if not out_hashable(fk):
                 raise TypeError('unhashable')       # ... and a key that became a list cannot be a key
-            r[k] = fv
+            r[fk] = fv
         return r
     if isinstance(o, frozenset):
-        return ('set', [finalise(x) for x in o])
+        limit_sized(o)
+        # the members are converted (and, for a set, hashed) one by one in the set's iteration order: when they fail in
+        # different ways there is no documented result
+        r, errs = FSet(), set()
+        for x in o:
+            try:
+                fx = finalise(x)
+                if not CUR.sl and not out_hashable(fx):
+                    raise TypeError('unhashable')
+                r.append(fx)
+            except OOD:
+                raise
+            except Exception as e:
+                errs.add(type(e).__name__)
+                err = e
+        if len(errs) > 1:
+            raise OOD()
+        if errs:
+            raise err
+        return r
     if isinstance(o, View):
         # documented: {"a" => 1, "b" => 2}.keys() -> ["a", "b"], .values() -> [1, 2], .items() -> [["a", 1], ["b", 2]]
-        return [finalise(x) for x in o.elems()]
-    if isinstance(o, (tuple, list)):
+        if o.kind == 'values':
+            return [finalise(x) for x in limit_lazy(iter(o.elems()))]
+        return [finalise(x) for x in limit_sized(o.elems())]
+    if isinstance(o, tuple):
+        limit_sized(o)
+        r = [finalise(x) for x in o]
+        return r if CUR.tl else tuple(r)
+    if isinstance(o, list):
+        limit_sized(o)
         return [finalise(x) for x in o]
     if isinstance(o, Ordering) or is_iterator(o):
         return [finalise(x) for x in it(o)]
@@ -1566,6 +1886,37 @@ def render(ops, binder=None, root='$'):
     if binder is not None:
         return 'let(%s) -> %s' % (render_op('$', binder), r)
     return r
+
+
+def render_obs(ops, binder, obs):
+    """the observing program around the pipeline P = render(ops)"""
+    _QUOTE[0] = 0
+    r = '$'
+    for a in ops:
+        r = render_op(r, a)
+    shape, u, u2 = obs['shape'], obs['u'], obs.get('u2')
+    if shape == 'letPair':
+        body = 'let(x => %s) -> [%s, $x]' % (r, render_op('$x', u))
+    elif shape == 'letTwice':
+        body = 'let(x => %s) -> [%s, %s, $x]' % (r, render_op('$x', u), render_op('$x', u2))
+    elif shape == 'letChain':
+        body = 'let(x => %s) -> let(y => %s) -> [%s, $y, $x]' % (r, render_op('$x', u), render_op('$y', u2))
+    elif shape == 'selPair':
+        body = '%s.select([%s, $])' % (r, render_op('$', u))
+    elif shape == 'memPair':
+        body = 'let(m => %s.memorize()) -> [$m.select(%s).toList(), $m.toList()]' % (r, render_op('$', u))
+    else:
+        raise ValueError(shape)
+    if binder is not None:
+        return 'let(%s) -> %s' % (render_op('$', binder), body)
+    return body
+
+
+def obs_json(obs, enc):
+    j = {'shape': obs['shape'], 'u': op_json(obs['u'], enc)}
+    if obs.get('u2') is not None:
+        j['u2'] = op_json(obs['u2'], enc)
+    return j
 
 
 # ------------------------------------------------------------------ JSON for the Lean driver
